@@ -1,16 +1,27 @@
 (* Model of data_types.get_chunk_dtype_transformer as it is coded today
-   (/repo HEAD, after the "buffer may be reused" fix), and the specification
-   "nearest representable value, half-to-even, saturating" it is judged by.
+   (/repo HEAD, after the fixes "buffer may be reused", "signed integers to
+   uint64 without going through float64" and "saturate at the top of the
+   uint64 range"), and the specification "nearest representable value,
+   half-to-even, saturating" it is judged by.
 
+     output_min, output_max = iinfo(output)
      work_dtype       = promote_types(input, output)
+     if input and output are integer types and work_dtype is not:
+         work_dtype = input                       (signed -> uint64, uint64 -> signed)
+         output_min = max(output_min, iinfo(input).min)
+         output_max = min(output_max, iinfo(input).max)
      round_to_nearest = output integer and input not integer
      clip_values      = output integer and not can_cast(input, output, "safe")
+     saturate_top     = clip_values and work_dtype floating
+                        and int(work_dtype.type(output_max)) > output_max
      if round or clip:
          preserve_input: chunk = np.array(chunk, dtype=work, copy=True)
          else:           chunk = np.asarray(chunk, dtype=work); copy if read-only
          np.rint(chunk, out=chunk)                       (if round)
          np.clip(chunk, output_min, output_max, out=chunk)   (if clip)
-     return chunk.astype(output, casting="unsafe")
+     result = chunk.astype(output, casting="unsafe")
+     if saturate_top: result[chunk >= work_dtype.type(output_max)] = output_max
+     return result
 
    Array elements are [num]: an integer or a float.  The conversion is
    elementwise, so the model is a scalar function mapped over the flat list,
@@ -106,16 +117,49 @@ Definition clip_num (d : dtype) (lo hi : Z) (v : num) : num :=
 Definition round_flag (i o : dtype) : bool := is_int o && negb (is_int i).
 Definition clip_flag (i o : dtype) : bool := is_int o && negb (can_cast_safe i o).
 
+(* integer -> integer pairs that NumPy would promote to float64 *)
+Definition int_via_float (i o : dtype) : bool :=
+  is_int i && is_int o && negb (is_int (promote i o)).
+
+Definition work_dtype (i o : dtype) : dtype :=
+  if int_via_float i o then i else promote i o.
+(* output_min / output_max as passed to np.clip *)
+Definition clip_lo (i o : dtype) : Z :=
+  if int_via_float i o then Z.max (imin o) (imin i) else imin o.
+Definition clip_hi (i o : dtype) : Z :=
+  if int_via_float i o then Z.min (imax o) (imax i) else imax o.
+
+(* the upper bound as a value of the floating-point work type *)
+Definition fhi_of (i o : dtype) : spec_float := of_Z (fmt_of (work_dtype i o)) (clip_hi i o).
+
+(* int(work_dtype.type(output_max)) > output_max *)
+Definition saturate_top (i o : dtype) : bool :=
+  clip_flag i o && negb (is_int (work_dtype i o)) &&
+  match to_Z_trunc (fhi_of i o) with
+  | Some z => clip_hi i o <? z
+  | None => false
+  end.
+
 (* The in-place stage on one element: value of the work array after rint/clip. *)
 Definition work_value (i o : dtype) (v : num) : num :=
-  let w := promote i o in
+  let w := work_dtype i o in
   let v0 := cast w v in
   let v1 := if round_flag i o then rint_num w v0 else v0 in
-  if clip_flag i o then clip_num w (imin o) (imax o) v1 else v1.
+  if clip_flag i o then clip_num w (clip_lo i o) (clip_hi i o) v1 else v1.
+
+(* chunk >= work_dtype.type(output_max), false for NaN *)
+Definition at_top (i o : dtype) (w : num) : bool :=
+  match w with
+  | NF x => negb (is_nan x) && negb (fltb x (fhi_of i o))
+  | NI _ => false
+  end.
 
 (* the returned element *)
 Definition convert_scalar (i o : dtype) (v : num) : num :=
-  if round_flag i o || clip_flag i o then cast o (work_value i o v) else cast o v.
+  if round_flag i o || clip_flag i o then
+    let w := work_value i o v in
+    if saturate_top i o && at_top i o w then NI (clip_hi i o) else cast o w
+  else cast o v.
 
 (* Does the transformer write into the caller's buffer?  Only when it was
    allowed to (preserve_input=False), there is an in-place stage, and
@@ -124,7 +168,7 @@ Definition convert_scalar (i o : dtype) (v : num) : num :=
    copied) and the array is writeable (a read-only one is copied). *)
 Definition aliased (i o : dtype) (preserve writeable native : bool) : bool :=
   negb preserve && (round_flag i o || clip_flag i o)
-  && dtype_eqb (promote i o) i && writeable && native.
+  && dtype_eqb (work_dtype i o) i && writeable && native.
 
 (* (returned array, caller's array afterwards) *)
 Definition convert (i o : dtype) (preserve writeable native : bool) (l : list num)
@@ -197,21 +241,9 @@ Definition num_decode (d : dtype) (z : Z) : num :=
 Definition num_encode (d : dtype) (v : num) : Z :=
   match v with NI z => z | NF x => to_bits (fmt_of d) x end.
 
-(* ---- guards: the regions where the transformer departs from nearest_sat -------
-   (executable; the harness classifies known findings with the same predicates,
-   cross-checked against these on every classified case) *)
-
-(* float -> uint64 at and above 2^64: the clip bound 2^64-1 becomes 2^64 in
-   float64 and the C cast of 2^64 gives 0 *)
-Definition uint64_top_guard (i o : dtype) (v : num) : bool :=
-  negb (negb (is_int i) && dtype_eqb o U64 && Qle_bool (inject_Z two64z) (num2Q v)).
-
-
-(* int64 -> uint64 goes through float64 (promote_types): inexact above 2^53 *)
-Definition int64_via_float_guard (i o : dtype) (v : num) : bool :=
-  negb (dtype_eqb i I64 && dtype_eqb o U64 &&
-        match v with NI z => 2 ^ 53 <? z | NF _ => false end).
-
+(* ---- guard: the region where the transformer departs from nearest_sat --------
+   (executable; the harness classifies the known finding with the same
+   predicate, cross-checked against this one on every finite value) *)
 
 (* float64 -> float32 overflows to infinity beyond the rounding boundary of FLT_MAX *)
 Definition f32_overflow_bound : Q := inject_Z (2 ^ 128 - 2 ^ 103).
